@@ -98,6 +98,9 @@ def model_agrees(o, a, m, s=None):
     rows before the cut depends on goroutine scheduling): then only columns and count are compared."""
     if m == "unsupported":
         return True
+    model_mixed = m.startswith("ok mk=1 ")
+    if model_mixed:
+        m = m.replace("ok mk=1 cols=", "ok cols=", 1)
     lim = "lim=-" not in o
     ordered = " ob=-" not in o
     if not (a.startswith("ok") and m.startswith("ok")):
@@ -110,7 +113,7 @@ def model_agrees(o, a, m, s=None):
             # no ORDER BY: the order of the groups follows Reduce's unstable sort on ties (keys equal as values)
             return unorder(a) == unorder(m)
     ref = s if (s and s.startswith(("ok", "limit="))) else m
-    mixed = ordered and kinds_mixed(o, ref)
+    mixed = ordered and (model_mixed or kinds_mixed(o, ref))
     if ordered and lim and mixed:
         return cols(a) == cols(m) and len(rows(a)) == len(rows(m))
     if ordered and lim:
